@@ -9,7 +9,15 @@ coercion).  Shared by C15/C16 (and later C13/C17/C18).
 * `float` is an exact dyadic `± m · 2^e`, plus `nan` and `± inf`; `-0.0` is `fin true 0 e`.
 * strings are lists of code points.
 * `list` and `tuple` are kept apart (a tuple is hashable, a list is not; `(1,) != [1]`).
-* `dict` has string keys in insertion order.
+* `dict` has string keys in insertion order (a `dict` or any subclass: OrderedDict, defaultdict …).
+* `iter` is any other iterable the code's `is_iterable` accepts (set, frozenset, generator, range,
+  user classes with `__iter__`), reduced to the items one traversal yields; `mapping` is a
+  `collections.abc.Mapping` that is *not* a dict (MappingProxyType, ChainMap, UserDict …) with
+  string keys.  The value layer tells them apart from list/dict: `isinstance(v, dict)` is false
+  for a `mapping`, `is_iterable` is false for it too (mappings are excluded), and only
+  `value_to_literal` tests `Mapping` instead of `dict`.  (For `==`/`hash` — used by C16's enum
+  lookup only — such objects are sent as `other`; `pyEq`/`hashable` treat `iter`/`mapping` as
+  never equal / unhashable.)
 * `other` is any other object, reduced to what the value layer reads from it: an identity
   tag (default `==`/`hash` are identity), whether its class lives in the `builtins` module
   (bytes, set, complex, `object()` ...), and what `str(obj)` returns (`none`: `__str__` raises).
@@ -94,6 +102,8 @@ inductive PyVal where
   | tuple (xs : List PyVal)
   | dict (kvs : List (List Nat × PyVal))
   | other (o : PyObj)
+  | iter (xs : List PyVal)
+  | mapping (kvs : List (List Nat × PyVal))
   deriving Repr, Inhabited
 
 namespace PyVal
@@ -110,6 +120,8 @@ mutual
 def hashable : PyVal → Bool
   | list _ => false
   | dict _ => false
+  | iter _ => false
+  | mapping _ => false
   | tuple xs => hashableAll xs
   | _ => true
 def hashableAll : List PyVal → Bool
